@@ -376,11 +376,22 @@ def run_model(model, M, tier, seed, wdir, extra_behaviours=None):
         except subprocess.TimeoutExpired:
             raise ToolError("harness timeout: %s" % " ".join(cmd))
         if r.returncode != 0:
-            raise ToolError("harness failed: %s\n%s" % (" ".join(cmd), r.stdout[-3000:]))
+            # The harness stopped (a getter or a set-up call of the code under test trapped where the harness did not
+            # expect it).  What it recorded until then is still judged: a violation found in it stands; without one
+            # the crash is a tool error.
+            crashed.append("harness failed: %s\n%s" % (" ".join(cmd), r.stdout[-3000:]))
+            if not os.path.exists(out):
+                return None
+            data = open(out, "rb").read()
+            if data and not data.endswith(b"\n"):
+                open(out, "wb").write(data[:data.rfind(b"\n") + 1])
+            if not open(out, "rb").read().strip():
+                return None
         return out
 
+    crashed = []
     with cf.ThreadPoolExecutor(NCPU) as ex:
-        trace_files = list(ex.map(runjob, jobs))
+        trace_files = [f for f in ex.map(runjob, jobs) if f]
     res["e2_wall"] = time.time() - t0
     # ---- statistics on the recorded traces (python side: counts only, no judgement) ----------
     events = runs = drift = 0
@@ -428,6 +439,8 @@ def run_model(model, M, tier, seed, wdir, extra_behaviours=None):
             v["trace_file"] = tf
             viol.append(v)
     res["monitor_evaluations"] = cnt
+    if crashed and not viol:
+        raise ToolError(crashed[0])
     # A run is judged on after a violation, by the monitors of the other properties only (Trace_*.tla: `dead` is the
     # set of properties already violated in the run).  What follows a *listed known finding* in the same run is a
     # consequence of that finding (the ghost and the code have parted ways there) and is not reported.
